@@ -55,7 +55,7 @@ def cases(draw, nums, invalid_kinds=(None,), pmax=4, kmax=4):
     invalid = draw(st.sampled_from(list(invalid_kinds)))
     nodes = draw(node_multiset(c["U"], c["p"], invalid))
     return {"curve": c, "nodes": nodes, "invalid": invalid,
-            "container": draw(st.sampled_from(["list", "tuple"]))}
+            "container": draw(st.sampled_from(["list", "tuple", "ndarray"]))}
 
 
 def check(case, out):
@@ -68,6 +68,10 @@ def check(case, out):
     lnodes = [lib.conv_knot(z, num) for z in case["nodes"]]
     nodes = [oracle.frac(z) for z in lnodes]
     arg = tuple(lnodes) if case["container"] == "tuple" else list(lnodes)
+    if case["container"] == "ndarray" and not exact and lnodes:
+        import numpy as _np
+        arg = _np.array(lnodes, dtype="float64")
+    out.cls("container=" + case["container"])
     U = ref.U
     bk = oracle.breaks(U)
     a, b = bk[0], bk[-1]
